@@ -280,6 +280,11 @@ let oracle_c15 (impl : string) : string =
   | "PANIC" :: _ -> "FAIL:panic during the concurrent run"
   | _ -> "FAIL:unexpected observation"
 
+(* a passing case whose source lies in the domain of the round-trip theorem (Proofs/LexRound.v, decided by the
+   extracted in_domain of Spec/LexSpell.v) is reported as "ok:indomain"; check.py counts them into the evidence *)
+let in_dom (src : string) (r : string) : string =
+  if r = "ok" && String.length src <= 400 && E.in_domain (bytes_of_string src) then "ok:indomain" else r
+
 let oracle (f : string list) (impl : string) : string =
   match f with
   | _ :: "conc" :: _ -> oracle_c15 impl
@@ -300,7 +305,7 @@ let oracle (f : string list) (impl : string) : string =
           else if List.exists E.illT ts
                   && (match split_on '\t' impl with [ "PARSE"; "OK"; _ ] | "RENDER" :: "OK" :: _ -> true | _ -> false)
           then "FAIL:the token stream holds an ILLEGAL token and the template was accepted"
-          else oracle_c08 id impl)
+          else in_dom (unhex src) (oracle_c08 id impl))
   | id :: _ when starts_with "C08" id -> oracle_c08 id impl
   | id :: "render" :: src :: _ when starts_with "C09" id ->
       (* the hypothesis of the never-panics theorem must hold for what the parser model returns *)
@@ -314,6 +319,6 @@ let oracle (f : string list) (impl : string) : string =
   | Some exp -> oracle_expected exp impl
   | None ->
   match f with
-  | id :: "lex" :: src :: _ when starts_with "C19" id -> oracle_c19 (unhex src) impl
-  | id :: "lexc" :: src :: _ when starts_with "C19" id -> oracle_c19_cursors (unhex src) impl
+  | id :: "lex" :: src :: _ when starts_with "C19" id -> in_dom (unhex src) (oracle_c19 (unhex src) impl)
+  | id :: "lexc" :: src :: _ when starts_with "C19" id -> in_dom (unhex src) (oracle_c19_cursors (unhex src) impl)
   | _ -> "na"
